@@ -33,6 +33,9 @@ def run(prop, tier, seed):
                         "messages are chosen so that their handlers fail: 'fee taken and nothing else changed' identifies a transaction the ante handler accepted",
                         "the tx index is the harness's fake Tendermint RPC (answers 'found' exactly for hashes registered as already committed)"]
     slices = [(msgs, keys, muts)]
+    if tier == "thorough":
+        # the whole table, one message kind at a time (TLC refuses to build a set of more than 10^6 elements)
+        slices = [({m}, set(KEYS), set(MUTS)) for m in MSGS]
     if tier != "thorough":
         # every kind of message in every run, on the fee / balance / multiplier / replay / fee-shape dimensions
         # (plain ed25519 keys, no mutation): prices are looked up per kind of message
@@ -51,7 +54,7 @@ def run_slice(out, tier, seed, msgs, keys, muts, si):
         out.add_tlc(res, "decision table msgs=%s muts=%s" % (sorted(msgs), sorted(muts)))
         out.cov["exhaustive"] = tier == "thorough"
         # the deviation switches must make TLC refute the property (the specification is not vacuous)
-        for dev in (("NoSignerCheck", "MultisigFeeSkip") if si == 0 else ()):
+        for dev in (("NoSignerCheck", "MultisigFeeSkip") if si == 0 else ()):  # (self-checks once per run)
             f2 = tlagen.model("MCD", "AnteAuth", dict(consts, Dev={dev}, MsgSel={"send"}, MutSel={"none"}), invariants=["Inv_C03"])
             r2 = common.run_tlc("MCD", "MCD.cfg", d, timeout=600, files=f2, workers=4)
             if "Inv_C03" not in r2.violated:
